@@ -106,6 +106,9 @@ func parseClusterNodesSlot(segements []string) ([]int, error) {
 			if err != nil {
 				return nil, errInvalidClusterNodes
 			}
+			if start < 0 || end >= slotNum || start > end {
+				return nil, errInvalidClusterNodes
+			}
 			for i := start; i <= end; i++ {
 				slots = append(slots, i)
 			}
